@@ -332,6 +332,7 @@ def buffer_inv(an, st, obj, prefix, assume):
         if obj is None:
             return None
         st.env[("payload", obj, prefix)] = Region("payload(%s%s)" % (obj, prefix.rstrip(".")), size, "storage")
+        st.env[("used0", obj, prefix)] = used        # length when the object came into view (GAPFILL)
         st.add(size - used)
         st.add(Lin.const(PTRDIFF_MAX) - size)
         return None
@@ -366,15 +367,24 @@ def slice_inv(an, st, obj, prefix, assume):
     return [("_off <= PTRDIFF_MAX", st.entails(Lin.const(PTRDIFF_MAX) - off)), ("_len <= PTRDIFF_MAX", st.entails(Lin.const(PTRDIFF_MAX) - ln))]
 
 
-def _new_buffer(an, st, fr, need, used_zero, rec="mpt_buffer"):
+def _new_buffer(an, st, fr, need, used_zero, rec="mpt_buffer", old_used=None):
     """a fresh buffer object as the allocation / detach contract promises it"""
     s_null = st.copy()
     ptr = an.lazy_object(st, fr.f, rec, maybe_null=False, kind="N")
     size = st.env.get(("f", ptr.obj, "_size"))
     if isinstance(need, Lin) and isinstance(size, Lin):
         st.add(size - need)
+    if isinstance(old_used, Lin):
+        nu = st.env.get(("f", ptr.obj, "_used"))
+        if isinstance(need, Lin) and st.entails(need - old_used):
+            # the request covers the content: it is kept in full
+            st.env[("f", ptr.obj, "_used")] = old_used
+            st.env[("used0", ptr.obj, "")] = old_used
+        elif isinstance(nu, Lin):
+            st.add(old_used - nu)
     if used_zero:
         st.env[("f", ptr.obj, "_used")] = Lin.const(0)
+        st.env[("used0", ptr.obj, "")] = Lin.const(0)
     return [(st, ptr), (s_null, Ptr(None, Lin.const(0)))]
 
 
@@ -390,7 +400,10 @@ def slot_detach(an, st, fr, e, args):
             res = an.invariants[r2](an, st, a.obj, pre, False)
             bad = [t for t, ok in res if not ok]
             an.oblige("CALLINV", fr, e, not bad, "" if not bad else "buffer handed to detach() while %s is not shown; path: %s" % (", ".join(bad), " / ".join(st.trail[-8:])))
-    return _new_buffer(an, st, fr, args[1] if len(args) > 1 else None, False)
+    old_used = None
+    if args and isinstance(args[0], ObjPtr):
+        old_used = st.env.get(("f", args[0].obj, args[0].prefix + "_used"))
+    return _new_buffer(an, st, fr, args[1] if len(args) > 1 else None, False, old_used=old_used)
 
 
 def slot_pure(an, st, fr, e, args):
@@ -420,6 +433,19 @@ def check_post_buffer(an, f, fr, entry, outs, need_param, used_zero, agg):
             bad.append("_size >= requested %s" % need_param)
         if used_zero and not (isinstance(st.env.get(("f", v.obj, v.prefix + "_used")), Lin) and st.entails_eq(st.env[("f", v.obj, v.prefix + "_used")], Lin.const(0))):
             bad.append("_used == 0")
+        if not used_zero:
+            # detach: the content length is kept when the request covers it, never grows otherwise
+            u_old = None
+            p0 = entry.env.get(("v", fr.id, f.params[0]["id"]))
+            if isinstance(p0, ObjPtr):
+                u_old = entry.env.get(("f", p0.obj, p0.prefix + "_used"))
+            u_new = st.env.get(("f", v.obj, v.prefix + "_used"))
+            if isinstance(u_old, Lin) and isinstance(u_new, Lin) and isinstance(need, Lin):
+                if st.entails(need - u_old):
+                    if not st.entails_eq(u_new, u_old):
+                        bad.append("_used kept (request covers the content)")
+                elif not st.entails(u_old - u_new):
+                    bad.append("_used <= old _used")
         if bad and "join" not in st.trail:
             ok, det = False, "%s not shown for the returned buffer on path %s" % (", ".join(bad), " / ".join(st.trail[-8:]))
     agg["LIN:%s:POST" % f.name] = [ok, FRef(f), f.line, det, True]
@@ -450,6 +476,8 @@ BUF_CONTRACTS = {
     "mpt_array_append": {"base": ("bytes", "len", True)},
     "mpt_array_set": {"data": ("bytes", "len", True)},
 }
+# functions that return the added area for the caller to fill: the bytes they add are deliberately not written
+GAPFILL_EXEMPT = {"mpt_buffer_insert": "returns the inserted area", "mpt_array_insert": "returns the inserted area"}
 GLOBAL_INV = {"_mpt_buffer_alloc_psize": (0, 4 * 1024 * 1024 + 8, 8)}      # 0 (unset) or a page size of at least 8
 
 
@@ -565,6 +593,69 @@ def _buf_root(i):
                         cov_det = "%s in %s wrote up to byte %r of %s, _used is %r at the successful return on path %s" % (wtext, wfn, end, text, used, " / ".join(st.trail[-8:]))
     if ncov:
         agg["LIN:%s:USEDCOVER" % f.name] = [cov_ok, FRef(f), f.line, cov_det, True]
+    # GAPFILL: when a successful call leaves a longer used area, every byte it added was written by the call
+    gap_ok, gap_det, ngap = True, "", 0
+    for st, v in (outs if f.name not in GAPFILL_EXEMPT else []):
+        if isinstance(v, Lin) and st.entails(-v - Lin.const(1)):
+            continue
+        if isinstance(v, Ptr) and v.region is None and f.T(f.ret).get("k") == "ptr":
+            continue
+        for obj, prefix, text in reachable_buffers(an, f, st, fr):
+            reg = an.payload_of(st, obj, prefix)
+            used = st.env.get(("f", obj, prefix + "_used"))
+            u0 = st.env.get(("used0", obj, prefix))
+            if obj.startswith("N") and ("f", obj, prefix + "_used") in st.env and u0 is not None and not isinstance(u0, Lin):
+                u0 = None
+            if reg is None or not isinstance(used, Lin) or not isinstance(u0, Lin):
+                continue
+            if st.entails(u0 - used):
+                continue
+            joined = st.joined
+            st = st.copy()
+            st.add(used - u0 - Lin.const(1))       # only executions in which the length grew matter here
+            if not st.feasible():
+                continue
+            st.joined = joined
+            ngap += 1
+            # greedy cover of [u0, used) by the recorded write intervals
+            at = u0
+            ivs = list(st.env.get(("wrote", reg.id), ()))
+            # merge pieces that touch or overlap
+            merged = True
+            while merged and len(ivs) > 1:
+                merged = False
+                for i1 in range(len(ivs)):
+                    for i2 in range(len(ivs)):
+                        if i1 != i2:
+                            a1, b1 = ivs[i1]
+                            a2, b2 = ivs[i2]
+                            if st.entails(a2 - a1) and st.entails(b1 - a2):       # a1 <= a2 <= b1
+                                nb = b2 if st.entails(b2 - b1) else (b1 if st.entails(b1 - b2) else None)
+                                if nb is not None:
+                                    ivs = [iv for k, iv in enumerate(ivs) if k not in (i1, i2)] + [(a1, nb)]
+                                    merged = True
+                                    break
+                    if merged:
+                        break
+            progress = True
+            while progress and not st.entails(at - used):
+                progress = False
+                for a, b in ivs:
+                    if st.entails(at - a) and st.entails(b - at - Lin.const(1)):
+                        at = b
+                        progress = True
+                        break
+            if not st.entails(at - used):
+                if st.joined or an.stats.get("havoc_calls", 0) and any(True for _ in ()):
+                    undecided.add("LIN:%s:GAPFILL" % f.name)
+                elif st.joined:
+                    undecided.add("LIN:%s:GAPFILL" % f.name)
+                else:
+                    gap_ok = False
+                    gap_det = "%s grows from %r to %r bytes, the call wrote %s: bytes from %r on are not shown to be written; path: %s" % (
+                        text, u0, used, ", ".join("[%r,%r)" % iv for iv in ivs) or "nothing", at, " / ".join(st.trail[-8:]))
+    if ngap:
+        agg["LIN:%s:GAPFILL" % f.name] = [gap_ok, FRef(f), f.line, gap_det, True]
     if f.name == "_mpt_buffer_alloc":
         check_post_buffer(an, f, fr, entry, outs, "len", True, agg)
     elif f.name.endswith("_detach") and len(f.params) == 2:
